@@ -32,10 +32,18 @@ def invalidations(prog: Program, resolver: Resolver, qual: str, _depth: int = 0)
         if cs.external and cs.external.startswith("cache_clear:"):
             out.append((cs.external.split(":", 1)[1], cs.node))
         elif _depth < 2:
-            # a helper that clears the caches counts at the call site of the helper
+            # a helper that clears the caches counts at the call site of the helper - for the caches it clears on
+            # every path to its normal exit (a clear the helper can skip is no invalidation the caller can rely on)
             for t in cs.targets:
-                for mm, _ in invalidations(prog, resolver, t, _depth + 1):
-                    out.append((mm, cs.node))
+                inner = invalidations(prog, resolver, t, _depth + 1)
+                if not inner:
+                    continue
+                cfg = CFG(prog.functions[t].node)
+                for mm in sorted({mm for mm, _ in inner}):
+                    nodes = {cfg.node_of(n) for m2, n in inner if m2 == mm}
+                    nodes.discard(None)
+                    if nodes and cfg.exit_return not in cfg.reachable(cfg.entry, avoid=nodes):  # type: ignore[arg-type]
+                        out.append((mm, cs.node))
     return out
 
 
